@@ -15,12 +15,25 @@ CONSTANTS MaxRows,      \* rows + separators in the table
           MaxDetached,  \* detached rows alive at once
           MaxHdr,       \* AddHeaders calls
           MaxHist,      \* operations per history
+          ItemMode,     \* "plain": tiny strings; "mixed": also multi-line, empty, nil and size-lying items (C09)
           GenFile       \* scenario output ("" = none)
 
 VARIABLES st, hist
 vars == <<st, hist>>
 
 It(s) == [k |-> "str", s |-> s, tx |-> [s |-> << <<s, Len(s)>> >>]]
+L(s) == << <<s, Len(s)>> >>
+Liar(caps, txt, ls, h, w) == [k |-> "obj", caps |-> caps, strv |-> txt, gov |-> "", errv |-> "", fmtv |-> "F", h |-> h, w |-> w,
+                              tx |-> [strv |-> ls, gov |-> <<>>, errv |-> <<>>, fmtv |-> L("F")]]
+TwoLines == << <<"a", 1>>, <<"bb", 2>> >>
+Mixed == {It("c"), [k |-> "str", s |-> "", tx |-> [s |-> <<>>]], [k |-> "str", s |-> "a\nbb", tx |-> [s |-> TwoLines]], [k |-> "nil"],
+          Liar(<<"String", "Height">>, "a\nbb", TwoLines, 1, 0),      \* height understated
+          Liar(<<"String", "Height">>, "a", L("a"), 3, 0),            \* height overstated
+          Liar(<<"String", "Height">>, "a", L("a"), -2, 0),
+          Liar(<<"String", "Width">>, "abc", L("abc"), 0, 1),         \* width understated
+          Liar(<<"String", "Width">>, "a", L("a"), 0, 6),
+          Liar(<<"String", "Height", "Width">>, "", <<>>, 2, 2)}
+LateItems == IF ItemMode = "mixed" THEN Mixed ELSE {It("c")}
 Items(n) == [i \in 1..n |-> It(IF i = 1 THEN "a" ELSE "bb")]
 
 T == st.tbl[1]
@@ -40,7 +53,7 @@ Ops ==
         THEN {[op |-> "newrow", how |-> "sizedfor", t |-> 1, cap |-> 0],
               [op |-> "newrow", how |-> "new", t |-> 1, cap |-> 0],
               [op |-> "newrow", how |-> "cap", t |-> 1, cap |-> 0]} ELSE {})
-  \cup {[op |-> "rowadd", r |-> r, item |-> It("c")] : r \in {x \in DOMAIN st.row : CanGrow(x)}}
+  \cup {[op |-> "rowadd", r |-> r, item |-> d] : r \in {x \in DOMAIN st.row : CanGrow(x)}, d \in LateItems}
   \cup {[op |-> "addrow", t |-> 1, r |-> r] : r \in IF NRows < MaxRows THEN Detached ELSE {}}
 
 NewT == [op |-> "newtable", via |-> "core"]
@@ -54,6 +67,9 @@ Next == /\ Len(hist) < MaxHist
 Spec == Init /\ [][Next]_vars
 
 View == st
+
+\* (simulation mode) one scenario per random walk, written when it reaches the depth
+EmitAtDepth == GenFile = "" \/ Len(hist) < MaxHist \/ CSVWrite("%1$s", <<ToJson(hist)>>, GenFile)
 
 \* one scenario per transition of the bounded model
 Emit == GenFile = "" \/ CSVWrite("%1$s", <<ToJson(hist')>>, GenFile)
